@@ -289,7 +289,7 @@ func lookupRules(pl *pool, grs, gsr *ssa.Function, R func(string) string) {
 		}
 	}
 	c.floor(R("C01.lookup"), nret, 3)
-	eq, wit := gcs.Equiv(gcs.OnlyNamed(homeRet), gcs.OnlyNamed(gcs.And(KF, HR)))
+	eq, wit := gcs.EquivStrict(homeRet, gcs.OnlyNamed(gcs.And(KF, HR)))
 	c.check(eq, R("C01.lookup"), "getReadySubConnRef: home slot ⇔ bound ∧ READY", p.pos(grs.Pos()), "whenever the key is bound and its channel READY the home slot is returned", "bound key with a READY channel is not always given its home slot: "+wit)
 
 	// ---- C01.bound-first (getSubConnRef)
